@@ -434,7 +434,11 @@ pub fn run(cfg: &Cfg) -> Stats {
     // random
     let n = cfg.pick(2_000_000, 8_000_000);
     let strat = proptest::collection::vec(crate::gen::s_byte(), 0..10);
-    let s = run_strategy(&strat, cfg.seed, "c15-random", n, |b, st| check(b, st, Some(maxlen)));
+    // each random string is evaluated twice in a row (hidden state: a memo filled before validation)
+    let s = run_strategy(&strat, cfg.seed, "c15-random", n, |b, st| {
+        check(b, st, Some(maxlen));
+        check(b, st, Some(0));
+    });
     total = total.merge(s);
     total.subspace("weighted random bytes, length 0..10 (proptest)", n, false);
     total
